@@ -1,5 +1,6 @@
 import XmlRsModel.Cli
 import XmlRsModel.Thm.C07
+import XmlRsModel.Lemmas.CliIndex
 /-! Property C17: `xe` replaces the children of precisely the selected element / attribute /
     document nodes by the parsed replacement and leaves every other item unchanged; `xq` prints
     exactly the serializations of the selected nodes in document order, or the scalar; both end in
@@ -191,6 +192,18 @@ theorem rewriteKids_length (dt : Option Doctype) (req : Bool) (sel : List Key) (
         cases hr : rewriteKids dt req sel repl base (n + 1) false r with
         | none => simp [hx, hr] at h
         | some rest => simp [hx, hr] at h; subst h; simp [ih _ _ rest hr]
+
+/-! ### the keys are the evaluator's keys -/
+
+/-- the child index under which the rewrite addresses an element child (`rewriteKids` numbers the
+    children with `kidIdx`) is the position of that child's node in the XPath tree built from the same
+    children: a key selected by the evaluator and the key the rewrite compares it with denote the same
+    child -/
+theorem rewrite_numbering_is_xpath_numbering (cfg : BuildCfg) (scope : List (Str × Str)) (kids : List Item)
+    (ns : List XNode) (h : buildItems cfg scope kids none = .ok ns) (j idx : Nat) (x : Item)
+    (hj : kids[j]? = some x) (hx : isTextLike x = false) (hidx : (kidIdx 0 false kids)[j]? = some idx) :
+    ∃ node, buildItem cfg scope x = .ok node ∧ ns[idx]? = some node :=
+  kidIdx_is_xpath_index cfg scope kids none ns h j x idx hj hx (by simpa using hidx)
 
 /-! ### xq -/
 
